@@ -306,7 +306,7 @@ def _light_history(ctx, cls, values, dt):
     return s
 
 
-def extras2(ctx):
+def _x2_wrappers(ctx, cur):
     import eqsig
     from eqsig.fns import peaks_and_crossings as pc
     rng = ctx.rng
@@ -321,6 +321,8 @@ def extras2(ctx):
         ctx.hist('extras2/wrappers/' + kind)
         ctx.count_case(('x2w', v.tobytes()), gen.nontrivial_record(v))
         inputs = {'values': v.tolist()}
+        cur.clear()
+        cur.update(inputs)
         # clean_out_non_changing: every sample that differs from its predecessor (and sample 0) survives, nothing else; values are those samples
         rc = call_impl(pc.clean_out_non_changing, v.copy())
         want_idx = sorted({0} | {i for i in range(1, n) if v[i] != v[i - 1]})
@@ -389,6 +391,13 @@ def extras2(ctx):
                                got[nm][0] == 'ok' and _same(got[nm][1], refs[nm]), {**inputs, 'container': lab},
                                detail={'got': got[nm][1], 'float64 ndarray': refs[nm]})
 
+
+def _x2_scale(ctx, cur):
+    import eqsig
+    from eqsig.fns import peaks_and_crossings as pc
+    rng = ctx.rng
+    quick = ctx.tier == 'quick'
+
     # ---- (2) exact scale invariance: indices and counter are homogeneous of degree 0 (products of neighbouring differences stay inside the
     # normal range for 2^-400 on multiples of 1/8 and overflow to +-inf with the right sign for 2^+500; 2^-600 is the documented underflow
     # limitation and not demanded)
@@ -397,6 +406,8 @@ def extras2(ctx):
         v = gen.dyadic_record(rng, n) if it % 2 else gen.plateau_record(rng, n)
         if len(set(v.tolist())) < 2:
             continue
+        cur.clear()
+        cur.update({'values': v.tolist()})
         base = [pc.get_peak_array_indices(v), pc.get_peak_array_indices(v, ptype='max'), pc.get_peak_array_indices(v, ptype='min'),
                 pc.get_n_cyc_array(v), pc.get_n_cyc_array(v, start='peak')]
         for k in (-400, 500, -200, 900):
@@ -410,6 +421,13 @@ def extras2(ctx):
                 ctx.oracle('C11 indices and cycle counter are unchanged when the series is scaled by a power of two (%s)' % nm,
                            g[0] == 'ok' and _same(g[1], b), {'values': v.tolist(), 'scale': '2**%d' % k}, detail={'scaled': g[1], 'base': b})
 
+
+def _x2_large(ctx, cur):
+    import eqsig
+    from eqsig.fns import peaks_and_crossings as pc
+    rng = ctx.rng
+    quick = ctx.tier == 'quick'
+
     # ---- (1) large instances: thousands of turning points; the property's definition in O(n) with NumPy, decomposition at a reported
     # index, selections, counter at the reported indices, object wrapper, integer containers
     sizes = [(rng.choice(['int-walk', 'plateau']), rng.choice([5000, 8192, 12000])), ('noise', rng.choice([20000, 32768, 60000])),
@@ -418,6 +436,8 @@ def extras2(ctx):
         sizes += [(k, m) for k in ('int-walk', 'plateau', 'noise', 'monotone-stretches') for m in (4096, 5001, 65536, 100000)]
     for kind, n in sizes:
         desc, v = _large_record(rng, kind, n)
+        cur.clear()
+        cur.update(desc)
         ctx.hist('extras2/large/' + kind)
         ctx.count_case(('x2l', kind, n, desc['numpy_seed']), True, sample=desc)
         want = np_spec_peaks(v)
@@ -466,6 +486,11 @@ def extras2(ctx):
             for k in (-400, 500) if kind != 'noise' else (-100, 400):
                 ctx.oracle('C11 (large) indices unchanged when the series is scaled by a power of two', _same(pc.get_peak_array_indices(v * 2.0 ** k), P),
                            {**desc, 'scale': '2**%d' % k})
+
+
+def extras2(ctx):
+    from _hxb_common import guarded_sections
+    guarded_sections(ctx, 'C11', [('wrappers', _x2_wrappers), ('scale', _x2_scale), ('large', _x2_large)])
 
 
 _run_main2 = run
